@@ -168,3 +168,51 @@ class FallbackStart:
         subscribed_once="engine.n_receivers == 1 and self._receiver is rx and self._formula_engine is engine",
         buffer_not_reduced="engine.buffer >= DEFAULT_BUFFER",
     )
+
+
+# ------------------------------------------------------------------ which components can stand in for a meter
+FG = "frequenz.sdk.timeseries.formula_engine._formula_generators._formula_generator"
+from pyvc.spec import FixedList, Const   # noqa: E402  pylint: disable=wrong-import-position
+
+KIND_CHP = 0
+KIND_PV = 1
+KIND_BATTERY_INVERTER = 2
+KIND_EV = 3
+KIND_OTHER = 4
+# a component of the graph, with what the graph says about it as a ghost field (`kind`)
+GraphCompT = Rec("ext:frequenz.client.microgrid.Component", component_id=Int, kind=Int)
+from pyvc.spec import Enum as EnumT   # noqa: E402  pylint: disable=wrong-import-position
+CategoryT = EnumT("ext:frequenz.client.microgrid.ComponentCategory",
+                  ["NONE", "GRID", "METER", "INVERTER", "BATTERY", "EV_CHARGER", "CHP"])
+MeterT = Rec("ext:frequenz.client.microgrid.Component", component_id=Int, category=CategoryT)
+try:
+    from frequenz.client.microgrid import ComponentCategory
+except ImportError:
+    pass
+GraphT = ExtObj("ComponentGraph", methods=dict(
+    successors=dict(returns="succ"),
+    is_chp=dict(returns="args[0].kind == KIND_CHP"), is_pv_inverter=dict(returns="args[0].kind == KIND_PV"),
+    is_battery_inverter=dict(returns="args[0].kind == KIND_BATTERY_INVERTER"),
+    is_ev_charger=dict(returns="args[0].kind == KIND_EV")))
+
+
+def uniform_fallback_kind(succ):
+    """All successors of the meter are CHPs, or all PV inverters, or all battery inverters, or all EV chargers."""
+    return any(all(c.kind == k for c in succ) for k in (KIND_CHP, KIND_PV, KIND_BATTERY_INVERTER, KIND_EV))
+
+
+@contract(f"{FG}:FormulaGenerator._get_meter_fallback_components")
+class MeterFallbackComponents:
+    """C19 (which components a meter term falls back to): the meter's successors, exactly when they are all of one
+    kind that can be measured directly - CHPs, PV inverters, battery inverters or EV chargers; otherwise none."""
+    self_shape = Obj(f"{FG}:FormulaGenerator")
+    shapes = dict(meter=MeterT)
+    requires = dict(is_a_meter="meter.category == ComponentCategory.METER")
+    ghost = dict(conn=ExtObj("ConnectionManager", component_graph=GraphT),
+                 succ=FixedList(GraphCompT, GraphCompT, container="set"))
+    externals = {"frequenz.sdk.microgrid.connection_manager:get": "conn"}
+    modifies = ["conn"]
+    ensures = dict(
+        successors_when_uniform="implies(uniform_fallback_kind(succ), result is succ)",
+        none_otherwise="implies(not uniform_fallback_kind(succ), len(result) == 0)",
+    )
